@@ -35,7 +35,7 @@ type c17Case struct {
 	Accept      string
 	Method      string
 	ExtraHdr    string
-	Early       int // 0 none; 1: 103 Early Hints before the handler sets its headers; 2: after
+	Early       int  // 0 none; 1: 103 Early Hints before the handler sets its headers; 2: after
 	HeadSilent  bool // the handler writes no body for a HEAD request (what a reverse proxy does)
 }
 
